@@ -91,7 +91,7 @@ def section(rng, dl, cm):
     pool = [c for c in TEXT + b"=:" if c not in cm and c not in b"[]\""]
     words = [bytes(rng.choice(pool) for _ in range(rng.randrange(1, 5))) for _ in range(n)]
     name = b" ".join(words)
-    if rng.random() < 0.5: name = rng.choice([b"A", b"B", b"sec", b"Az", b"BY", b"ab", b"bA", b"_npMe_"])     # incl. pairs with equal djb2 hashes; _npMe_ hashes like the library's internal _none_
+    if rng.random() < 0.5: name = rng.choice([b"A", b"B", b"sec", b"Az", b"BY", b"ab", b"bA", b"_npMe_", b"a", b"SEC", b"Azz"])     # incl. pairs with equal djb2 hashes; _npMe_ hashes like the library's internal _none_
     if name == b"_none_": name = b"n"
     return ("S", blanks(rng, 0, 2) if rng.random() < 0.2 else b"", name, blanks(rng, 0, 2) if rng.random() < 0.2 else b"")
 
